@@ -206,6 +206,11 @@ def generate(tier, rng):
                 t = t + b"?x=/a/b"
             elif r == 4:
                 t = t + b"#frag"
+            elif r == 5:
+                # an octet the request line parser accepts in a target but text handling may trip over (NUL, DEL, >= 0x80),
+                # before a query / fragment delimiter
+                pos = rng.below(len(t) + 1)
+                t = t[:pos] + bytes([rng.choice([0, 0, 1, 127, 128, 255])]) + t[pos:] + rng.choice([b"", b"?a=b", b"#f", b"x?q#f"])
             method = rng.choice([b"GET", b"POST", b"PUT", b"DELETE", b"HEAD"])
             mask = rng.below(4)
             lines.append("rt-req %s %s %d" % (hx(method), hx(t), mask))
